@@ -346,124 +346,124 @@ func c11Drive(args []string) int {
 		return fmt.Sprintf("%s|%s|d%d|s%d", name, val, depth, prevSibs)
 	}
 	compareDoc := func(idrDoc *idr.Node, xdoc *xmlquery.Node, text string, nexpr int) {
-			// context nodes: the document and a few inner elements (selected by the same expression on both sides)
-			ctxExprs := []string{".", "/root/*[1]", "/root/*[2]", "//b[1]", "//a[last()]"}
-			for xi := 0; xi < nexpr; xi++ {
-				expr := genExpr()
-				ctxE := ctxExprs[r.Intn(len(ctxExprs))]
-				compiled, cerr := xpath.Compile(expr)
-				if cerr != nil {
-					continue
-				}
-				var left, right []string
-				pv, _ := guarded(0, func() {
-					ictx, _ := idr.MatchAll(idrDoc, ctxE)
-					xctx := xmlquery.Find(xdoc, ctxE)
-					if len(ictx) == 0 || len(xctx) == 0 {
-						if len(ictx) != len(xctx) {
-							left = []string{"CONTEXT-DIFFERS"}
-						}
-						return
-					}
-					// the string entry points of the package (with and without its expression cache) must select what the
-					// compiled expression selects
-					sigIdr := func(nd *idr.Node) string {
-						depth, prev := 0, 0
-						for p := nd; p.Parent != nil; p = p.Parent {
-							depth++
-						}
-						for p := nd.PrevSibling; p != nil; p = p.PrevSibling {
-							if p.Type != idr.AttributeNode {
-								prev++
-							}
-						}
-						name := nd.Data
-						if nd.Type == idr.TextNode {
-							name = "#text"
-						}
-						if nd.Type == idr.AttributeNode {
-							name, prev = "@"+nd.Data, 0
-						}
-						return sigOf(name, nd.InnerText(), depth, prev)
-					}
-					var viaString [2][]string
-					for k, flags := range [][]uint{nil, {idr.DisableXPathCache}} {
-						ns, err := idr.MatchAll(ictx[0], expr, flags...)
-						if err != nil {
-							viaString[k] = []string{"ERROR " + err.Error()}
-							continue
-						}
-						for _, nd := range ns {
-							viaString[k] = append(viaString[k], sigIdr(nd))
-						}
-					}
-					defer func() {
-						if fmt.Sprint(viaString[0]) != fmt.Sprint(left) || fmt.Sprint(viaString[1]) != fmt.Sprint(left) {
-							left = append(left, fmt.Sprintf("ENTRY-POINTS-DIFFER MatchAll(cached)=%v MatchAll(uncached)=%v", viaString[0], viaString[1]))
-						}
-					}()
-					it := idr.QueryIter(ictx[0], compiled)
-					for it.MoveNext() {
-						nd := it.Current().(interface{ Current() *idr.Node }).Current()
-						depth, prev := 0, 0
-						for p := nd; p.Parent != nil; p = p.Parent {
-							depth++
-						}
-						for p := nd.PrevSibling; p != nil; p = p.PrevSibling {
-							if p.Type != idr.AttributeNode {
-								prev++
-							}
-						}
-						name := nd.Data
-						if nd.Type == idr.TextNode {
-							name = "#text"
-						}
-						if nd.Type == idr.AttributeNode {
-							name, prev = "@"+nd.Data, 0
-						}
-						left = append(left, sigOf(name, nd.InnerText(), depth, prev))
-					}
-					xt := compiled.Select(xmlquery.CreateXPathNavigator(xctx[0]))
-					for xt.MoveNext() {
-						xn := xt.Current().(*xmlquery.NodeNavigator)
-						nd := xn.Current()
-						if xn.NodeType() == xpath.AttributeNode {
-							depth := 1
-							for p := nd; p.Parent != nil; p = p.Parent {
-								depth++
-							}
-							right = append(right, sigOf("@"+xn.LocalName(), xn.Value(), depth, 0))
-							continue
-						}
-						depth, prev := 0, 0
-						for p := nd; p.Parent != nil; p = p.Parent {
-							depth++
-						}
-						for p := nd.PrevSibling; p != nil; p = p.PrevSibling {
-							if p.Type != xmlquery.DeclarationNode {
-								prev++
-							}
-						}
-						name := nd.Data
-						if nd.Type == xmlquery.TextNode || nd.Type == xmlquery.CharDataNode {
-							name = "#text"
-						}
-						right = append(right, sigOf(name, nd.InnerText(), depth, prev))
-					}
-				})
-				if pv != "" {
-					left = append(left, "PANIC "+pv)
-				}
-				if left == nil {
-					left = []string{}
-				}
-				if right == nil {
-					right = []string{}
-				}
-				events = append(events, M{"ev": "equal", "tr": len(events) + 1, "x": left, "y": right, "xml": text, "expr": expr, "ctx": ctxE})
-				sum.Traces++
-				sum.eval(len(right) > 0 && strings.Count(expr, "::") >= 2, M{"x": text, "e": expr, "c": ctxE})
+		// context nodes: the document and a few inner elements (selected by the same expression on both sides)
+		ctxExprs := []string{".", "/root/*[1]", "/root/*[2]", "//b[1]", "//a[last()]"}
+		for xi := 0; xi < nexpr; xi++ {
+			expr := genExpr()
+			ctxE := ctxExprs[r.Intn(len(ctxExprs))]
+			compiled, cerr := xpath.Compile(expr)
+			if cerr != nil {
+				continue
 			}
+			var left, right []string
+			pv, _ := guarded(0, func() {
+				ictx, _ := idr.MatchAll(idrDoc, ctxE)
+				xctx := xmlquery.Find(xdoc, ctxE)
+				if len(ictx) == 0 || len(xctx) == 0 {
+					if len(ictx) != len(xctx) {
+						left = []string{"CONTEXT-DIFFERS"}
+					}
+					return
+				}
+				// the string entry points of the package (with and without its expression cache) must select what the
+				// compiled expression selects
+				sigIdr := func(nd *idr.Node) string {
+					depth, prev := 0, 0
+					for p := nd; p.Parent != nil; p = p.Parent {
+						depth++
+					}
+					for p := nd.PrevSibling; p != nil; p = p.PrevSibling {
+						if p.Type != idr.AttributeNode {
+							prev++
+						}
+					}
+					name := nd.Data
+					if nd.Type == idr.TextNode {
+						name = "#text"
+					}
+					if nd.Type == idr.AttributeNode {
+						name, prev = "@"+nd.Data, 0
+					}
+					return sigOf(name, nd.InnerText(), depth, prev)
+				}
+				var viaString [2][]string
+				for k, flags := range [][]uint{nil, {idr.DisableXPathCache}} {
+					ns, err := idr.MatchAll(ictx[0], expr, flags...)
+					if err != nil {
+						viaString[k] = []string{"ERROR " + err.Error()}
+						continue
+					}
+					for _, nd := range ns {
+						viaString[k] = append(viaString[k], sigIdr(nd))
+					}
+				}
+				defer func() {
+					if fmt.Sprint(viaString[0]) != fmt.Sprint(left) || fmt.Sprint(viaString[1]) != fmt.Sprint(left) {
+						left = append(left, fmt.Sprintf("ENTRY-POINTS-DIFFER MatchAll(cached)=%v MatchAll(uncached)=%v", viaString[0], viaString[1]))
+					}
+				}()
+				it := idr.QueryIter(ictx[0], compiled)
+				for it.MoveNext() {
+					nd := it.Current().(interface{ Current() *idr.Node }).Current()
+					depth, prev := 0, 0
+					for p := nd; p.Parent != nil; p = p.Parent {
+						depth++
+					}
+					for p := nd.PrevSibling; p != nil; p = p.PrevSibling {
+						if p.Type != idr.AttributeNode {
+							prev++
+						}
+					}
+					name := nd.Data
+					if nd.Type == idr.TextNode {
+						name = "#text"
+					}
+					if nd.Type == idr.AttributeNode {
+						name, prev = "@"+nd.Data, 0
+					}
+					left = append(left, sigOf(name, nd.InnerText(), depth, prev))
+				}
+				xt := compiled.Select(xmlquery.CreateXPathNavigator(xctx[0]))
+				for xt.MoveNext() {
+					xn := xt.Current().(*xmlquery.NodeNavigator)
+					nd := xn.Current()
+					if xn.NodeType() == xpath.AttributeNode {
+						depth := 1
+						for p := nd; p.Parent != nil; p = p.Parent {
+							depth++
+						}
+						right = append(right, sigOf("@"+xn.LocalName(), xn.Value(), depth, 0))
+						continue
+					}
+					depth, prev := 0, 0
+					for p := nd; p.Parent != nil; p = p.Parent {
+						depth++
+					}
+					for p := nd.PrevSibling; p != nil; p = p.PrevSibling {
+						if p.Type != xmlquery.DeclarationNode {
+							prev++
+						}
+					}
+					name := nd.Data
+					if nd.Type == xmlquery.TextNode || nd.Type == xmlquery.CharDataNode {
+						name = "#text"
+					}
+					right = append(right, sigOf(name, nd.InnerText(), depth, prev))
+				}
+			})
+			if pv != "" {
+				left = append(left, "PANIC "+pv)
+			}
+			if left == nil {
+				left = []string{}
+			}
+			if right == nil {
+				right = []string{}
+			}
+			events = append(events, M{"ev": "equal", "tr": len(events) + 1, "x": left, "y": right, "xml": text, "expr": expr, "ctx": ctxE})
+			sum.Traces++
+			sum.eval(len(right) > 0 && strings.Count(expr, "::") >= 2, M{"x": text, "e": expr, "c": ctxE})
+		}
 	}
 	for di := 0; di < n; di++ {
 		text := `<root xmlns:p="urn:p">` + gen(0) + gen(0) + `</root>`
